@@ -207,7 +207,20 @@ impl<Rounds: Unsigned + Default> NewCipher for ChaChaAny<U24, Rounds, X> {
 impl<NonceSize: Unsigned, Rounds, IsX> StreamCipherSeek for ChaChaAny<NonceSize, Rounds, IsX> {
     #[inline]
     fn try_current_pos<T: SeekNum>(&self) -> Result<T, OverflowError> {
-        unimplemented!()
+        let buf = &self.state;
+        // Blocks consumed so far, from the count of blocks remaining.
+        let blocks: u128 = if NonceSize::U32 != 12 {
+            if buf.len == BIG_LEN && !buf.fresh {
+                1 << 64
+            } else {
+                u128::from(BIG_LEN.wrapping_sub(buf.len))
+            }
+        } else {
+            u128::from(SMALL_LEN - buf.len)
+        };
+        // have > 0: unused bytes of the last block; have < 0: offset into a block not generated yet.
+        let pos = (blocks * u128::from(BLOCK64)).wrapping_sub(buf.have as i128 as u128);
+        pos.try_into().map_err(|_| OverflowError)
     }
     #[inline(always)]
     fn try_seek<T: SeekNum>(&mut self, pos: T) -> Result<(), LoopError> {
